@@ -238,6 +238,16 @@ def check_text_pairs(case, ev):
     W = 32 if fam == 4 else 128
     mk_text = (lambda n: G.v4_canon(n)) if fam == 4 else (lambda n: str(ipaddress.IPv6Address(n)))
     line = " ".join(mk_text(n) + suf for n, suf in toks)
+    if case.get("prelude"):
+        # a short-lived anonymizer with OTHER options handles some of the same tokens first and is
+        # dropped before the one under test is created (state keyed by object identity or by text
+        # would leak into it)
+        pre, exc = guarded(G.mk, case["prelude"]["cfg"], fam)
+        if exc is not None:
+            return core.exc_finding(exc, case, "ctor/")
+        sub = " ".join(mk_text(n) + suf for i, (n, suf) in enumerate(toks) if i in case["prelude"]["idx"])
+        guarded(anonymize_ip_addr, pre, sub)
+        del pre
     if case["via"] == "line":
         an, exc = guarded(G.mk, cfg, fam)
         if exc is not None:
@@ -260,7 +270,7 @@ def check_text_pairs(case, ev):
             imgs.append(int(ipaddress.ip_address(addr)))
         except ValueError:
             return Finding("text/output-token-not-an-address", "%r -> %r" % (line, out), case)
-    ev.case(case, len(toks) >= 2, ["text-v%d" % fam, "via-" + case["via"]] + (["with-len-suffix"] if any(sf for _, sf in toks) else []))
+    ev.case(case, len(toks) >= 2, ["text-v%d" % fam, "via-" + case["via"]] + (["after-short-lived-anonymizer"] if case.get("prelude") else []) + (["with-len-suffix"] if any(sf for _, sf in toks) else []))
     for i in range(len(toks)):
         for j in range(i + 1, len(toks)):
             k, k2 = G.cpl(toks[i][0], toks[j][0], W), G.cpl(imgs[i], imgs[j], W)
@@ -343,7 +353,11 @@ def _text_case(draw):
         if draw(st.integers(0, 3)) == 0:
             suf = "/%d" % draw(st.integers(0, W))
         toks.append([n, suf])
-    return {"fam": fam, "cfg": cfg, "toks": toks or [[0x01020304 if fam == 4 else 1, ""]], "via": draw(st.sampled_from(["line", "io"]))}
+    toks = toks or [[0x01020304 if fam == 4 else 1, ""]]
+    prelude = None
+    if draw(st.integers(0, 2)) == 0:
+        prelude = {"cfg": draw(G.config(networks="never")), "idx": draw(st.lists(st.integers(0, len(toks) - 1), min_size=1, max_size=len(toks), unique=True))}
+    return {"fam": fam, "cfg": cfg, "toks": toks, "via": draw(st.sampled_from(["line", "line", "io"])), "prelude": prelude}
 
 
 def t_text(shard, nshards, seed, ev, known, n=500):
